@@ -54,10 +54,11 @@ def run(ctx):
     ctx.extra['model_vs_code_mismatches'] = len(mismatches)
     ctx.extra['model_vs_code_mismatch_samples'] = mismatches[:3]
     ctx.sample({'schedule': behs[len(behs) // 2]['sched'], 'model_outcome': behs[len(behs) // 2]['outcome']})
+    ctx.tlc('SolverSplitMC', 'SolverSplit.cfg', workers=16, timeout=1200)
     # ---- (3) stress / history differential
     curves = ['bn254'] if quick else ['bn254', 'bls12-377', 'bw6-761']
     for curve in curves:
-        recs = ctx.harness(['c10stress', '--curve', curve, '--rounds', '6' if quick else '20', '--goroutines', '8' if quick else '16'],
+        recs = ctx.harness(['c10stress', '--curve', curve, '--seed', str(ctx.seed), '--rounds', '6' if quick else '20', '--goroutines', '8' if quick else '16'],
                            timeout=3600)
         judge_stress(ctx, recs)
     if not quick:
@@ -77,9 +78,39 @@ def run(ctx):
             judge_stress(ctx, [json.loads(l) for l in open(outp) if l.strip()])
 
 
+def validate_splits(ctx, recs):
+    """The task ranges the real solver pushed (recorded through the hooks) are validated by TLC against SolverSplit.tla."""
+    sp = [r for r in recs if r['kind'] == 'split' and not (r.get('err') or '').startswith('panic')]
+    if not sp:
+        return
+    items = ['[level |-> %d, nbTasks |-> %d, ranges |-> %s]' % (r['level'], r['nbTasks'], vlib.tla([list(x) for x in r['ranges']])) for r in sp]
+    mc = '---- MODULE SolverSplitRec ----\nEXTENDS SolverSplit\nRec == <<\n  %s\n>>\n====\n' % ',\n  '.join(items)
+    cfg = 'SPECIFICATION Spec\nCONSTANTS\n  MaxLevel = 1\n  TaskCounts = {1}\n  Recorded <- Rec\nINVARIANT RecordedOK\nCHECK_DEADLOCK FALSE\n'
+    t = ctx.tlc('SolverSplitRec', 'SolverSplitRec.cfg', extra_files={'SolverSplitRec.tla': mc, 'SolverSplitRec.cfg': cfg},
+                workers=1, expect=('ok', 'invariant'), timeout=900)
+    ctx.traces += len(sp)
+    if t.status != 'ok':
+        bad = [r for r in sp if not valid_split(r)]
+        if not bad:
+            raise vlib.Infra('TLC rejects the recorded task splits but the Python twin of ValidSplit accepts them all')
+        for r in bad[:5]:
+            ctx.report('solver task split is not a partition of the level (nbTasks=%d)' % r['nbTasks'],
+                       {'level': r['level'], 'nbTasks': r['nbTasks'], 'ranges': r['ranges'][:6] + r['ranges'][-3:]})
+
+
+def valid_split(r):
+    rs, L = r['ranges'], r['level']
+    if not rs:
+        return True
+    if rs[0][0] != 0 or rs[-1][1] != L or len(rs) > r['nbTasks']:
+        return False
+    return all(a < b <= L for a, b in rs) and all(rs[k][1] == rs[k + 1][0] for k in range(len(rs) - 1))
+
+
 def judge_stress(ctx, recs):
     if not recs:
         raise vlib.Infra('stress driver produced nothing')
+    validate_splits(ctx, recs)
     for r in recs:
         ctx.case(key='%s %s %s %s' % (r['kind'], r['circuit'], r['system'], r['detail']), nontrivial=r['runs'] > 1 or r['kind'] == 'nbtasks')
         ctx.traces += 1
@@ -93,6 +124,8 @@ def judge_stress(ctx, recs):
             what = 'panic'
         elif e.startswith('hang'):
             what = 'hang'
+        if r['kind'] == 'split':
+            r = dict(r, ranges=r['ranges'][:4])
         prefix = 'plonk shared solver option slice / keys' if (r['kind'] == 'concurrent-prove' and r['system'] == 'plonk') else r['kind']
         ctx.report('%s: %s circuit=%s system=%s' % (prefix, what, r['circuit'], r['system']), r)
     ctx.sample(recs[0])
